@@ -1,11 +1,23 @@
 // C12 recorder (V): free-running, jittered, contended executions; the hook log of every atomic increment/decrement
 // (with the value it returned) is validated by spec/Trace_Counter.tla as a linearizable counter history.
+// Growth: the value-returning part of Atomic<T> / AtomicCount (events 114..127), the other handle types that share one
+// Array / HashMap block (Dic, HashDic, Set, Stack, Queue, Array2, Var containers with nesting), the rest of the
+// Shared<T> / SmartObject API (null handles, as<>(), converting copies, clone()), a handle captured by the lambda of
+// a new asl::Thread that outlives the creator's handle, and handles passed between threads through a Mutex-protected
+// Queue signalled with a Semaphore.
 #include <asl/Array.h>
 #include <asl/Map.h>
 #include <asl/HashMap.h>
 #include <asl/Shared.h>
 #include <asl/Pointer.h>
 #include <asl/Mutex.h>
+#include <asl/Thread.h>
+#include <asl/Queue.h>
+#include <asl/Stack.h>
+#include <asl/Array2.h>
+#include <asl/Set.h>
+#include <asl/Var.h>
+#include <asl/util.h>
 #include "vsched.h"
 #include "vrec.h"
 #include <vector>
@@ -93,6 +105,79 @@ static bool counterScenario(Rng& rng, int maxThreads, int opsPer)
 		fprintf(stderr, "VREC-FAIL: AtomicCount final value %d, expected %ld (lost update)\n", fin, init + net);
 		return false;
 	}
+	return true;
+}
+
+
+// ---- the value-returning interface of Atomic<int> and AtomicCount: every returned value is logged (Trace_Counter.tla 114..127)
+struct ApiJob
+{
+	AtomicCount* c;
+	Atomic<int>* a;
+	uint64_t seed;
+	int ops, lo;
+	bool plainReads; // AtomicCount's reads are plain reads of a volatile int: not exercised under the data-race detector
+};
+static long cmpCode(int c, bool r) { return (long)(c + 1000) * 2 + (r ? 1 : 0); }
+static void* apiThread(void* p)
+{
+	ApiJob& j = *(ApiJob*)p;
+	Rng rng(j.seed);
+	Atomic<int>& a = *j.a;
+	AtomicCount& c = *j.c;
+	for (int i = 0; i < j.ops; i++)
+	{
+		int r = rng.below(18), v, k = rng.range(j.lo - 2, j.lo + 6);
+		if (!j.plainReads && (r == 12 || r == 13)) r = 14;
+		switch (r)
+		{
+		case 0: v = ++a; vsched::hook(114, &a, v); break;
+		case 1: v = a++; vsched::hook(115, &a, v); break;
+		case 2: v = --a; vsched::hook(116, &a, v); break;
+		case 3: v = a--; vsched::hook(117, &a, v); break;
+		case 4: v = (int)a; vsched::hook(118, &a, v); break;
+		case 5: v = ~a; vsched::hook(118, &a, v); break;
+		case 6: a = k; vsched::hook(119, &a, k); break;
+		case 7:
+		{
+			int w = rng.below(6);
+			bool b = w == 0 ? a == k : w == 1 ? a != k : w == 2 ? a < k : w == 3 ? a <= k : w == 4 ? a > k : a >= k;
+			vsched::hook(120 + w, &a, cmpCode(k, b));
+			break;
+		}
+		case 8: v = -a; vsched::hook(126, &a, v); break;
+		case 9: if (rng.chance(50)) { bool b = !a; vsched::hook(127, &a, b ? 1 : 0); } else { bool b = (bool)a; vsched::hook(127, &a, b ? 0 : 1); } break;
+		case 10: a += k; vsched::hook(113, &a, k); break;
+		case 11: a -= k; vsched::hook(113, &a, -k); break;
+		case 12: v = (int)c; vsched::hook(118, &c, v); break;
+		case 13:
+		{
+			int w = rng.below(4); // AtomicCount has ==, <, > and <=
+			bool b = w == 0 ? c == k : w == 1 ? c < k : w == 2 ? c > k : c <= k;
+			vsched::hook(w == 0 ? 120 : w == 1 ? 122 : w == 2 ? 124 : 123, &c, cmpCode(k, b));
+			break;
+		}
+		case 14: case 15: ++c; break; // results logged by the library hook (kind 2 / 4)
+		default: --c; break;
+		}
+	}
+	return 0;
+}
+static bool apiCounterScenario(Rng& rng, int maxThreads, int opsPer, bool plainReads)
+{
+	int nt = rng.range(2, maxThreads), init = rng.range(-3, 12);
+	AtomicCount c(init);
+	Atomic<int> a(init);
+	vsched::hook(111, &c, init);
+	vsched::hook(111, &a, init);
+	std::vector<ApiJob> jobs((size_t)nt);
+	std::vector<pthread_t> th((size_t)nt);
+	for (int i = 0; i < nt; i++) { ApiJob j = { &c, &a, rng.next(), opsPer, init, plainReads }; jobs[i] = j; }
+	for (int i = 0; i < nt; i++) pthread_create(&th[i], 0, apiThread, &jobs[i]);
+	for (int i = 0; i < nt; i++) pthread_join(th[i], 0);
+	Atomic<int> copy(a); // copy construction reads under the source's lock
+	vsched::hook(112, &c, (int)c);
+	vsched::hook(112, &a, (int)copy);
 	return true;
 }
 
@@ -195,6 +280,289 @@ static bool handleScenario(Rng& rng, C proto, int maxThreads, int opsPer, const 
 	return true;
 }
 
+
+// ---- a handle captured by the lambda of a new asl::Thread; the creator drops its own handle at once -----------------
+static __thread int g_sink; // keeps results alive (per thread: the data-race detector watches globals too)
+template <class C>
+static bool threadCaptureScenario(Rng& rng, const C& proto, int maxThreads)
+{
+	int nt = rng.range(1, maxThreads);
+	std::vector<Thread*> th;
+	{
+		C* mine = new C(proto);
+		for (int i = 0; i < nt; i++)
+		{
+			const C& h = *mine;
+			uint64_t seed = rng.next();
+			th.push_back(new Thread([h, seed]() {
+				Rng r(seed);
+				C a(h), b(a);
+				for (int k = r.range(0, 3); k > 0; k--) { C c2(b); a = c2; }
+				g_sink += (int)sizeof(a);
+			}));
+		}
+		delete mine; // the threads' captured copies keep the object alive
+	}
+	for (int i = 0; i < nt; i++) { th[i]->join(); delete th[i]; }
+	return true;
+}
+
+// ---- handles captured by lambdas wrapped in asl::Function objects: created, passed on (a copy takes the functor over),
+// replaced by another one, assigned to themselves, called and destroyed by several threads at once
+template <class C>
+struct FnJob
+{
+	const C* proto;
+	uint64_t seed;
+	int rounds;
+};
+template <class C>
+static void* fnThread(void* p)
+{
+	FnJob<C>& j = *(FnJob<C>*)p;
+	Rng rng(j.seed);
+	for (int i = 0; i < j.rounds; i++)
+	{
+		C h(*j.proto);
+		Function<int, int> f = [h](int x) { C inner(h); return x + 1; };
+		Function<int, int> g(f); // f is empty now, g owns the functor and its captured handle
+		Function<int, int> k = [h](int x) { return x + 2; };
+		if (g && !f) g_sink += g(1);
+		if (rng.chance(70)) k = g; // k's previous functor, with its captured handle, is released
+		if (rng.chance(30)) { Function<int, int>& r = k; k = r; }
+		if (k) g_sink += k(2);
+	}
+	return 0;
+}
+template <class C>
+static bool functionScenario(Rng& rng, const C& proto, int maxThreads)
+{
+	int nt = rng.range(2, maxThreads);
+	C* mine = new C(proto);
+	std::vector<FnJob<C> > jobs((size_t)nt);
+	std::vector<pthread_t> th((size_t)nt);
+	for (int i = 0; i < nt; i++) { FnJob<C> j = { mine, rng.next(), rng.range(1, 3) }; jobs[i] = j; }
+	for (int i = 0; i < nt; i++) pthread_create(&th[i], 0, fnThread<C>, &jobs[i]);
+	for (int i = 0; i < nt; i++) pthread_join(th[i], 0);
+	delete mine;
+	return true;
+}
+
+// ---- handles handed from producers to consumers through a Mutex-protected Queue, signalled with a Semaphore ------------
+template <class C>
+struct Channel
+{
+	Mutex mutex;
+	Semaphore items;
+	Queue<C> queue;
+	Queue<int> ids; // which item each queued handle is (travels with it)
+	AtomicCount taken;
+};
+template <class C>
+struct ChanJob
+{
+	Channel<C>* ch;
+	const C* proto;
+	int n, id;
+	bool producer;
+};
+template <class C>
+static void* chanThread(void* p)
+{
+	ChanJob<C>& j = *(ChanJob<C>*)p;
+	Channel<C>& ch = *j.ch;
+	for (int i = 0; i < j.n; i++)
+	{
+		if (j.producer)
+		{
+			C h(*j.proto); // the producer's own handle
+			{
+				Lock l(ch.mutex);
+				ch.queue.put(h);
+				ch.ids.put(j.id * 100 + i);
+				vsched::hook(130, &ch, j.id * 100 + i); // logged under the lock: the log order is the queue order
+			}
+			ch.items.post();
+		} // ... dropped here, possibly after the consumer has dropped the queued one
+		else
+		{
+			ch.items.wait();
+			C got;
+			{
+				Lock l(ch.mutex);
+				int id = ch.ids.get();
+				got = ch.queue.get();
+				vsched::hook(131, &ch, id);
+			}
+			C again(got);
+			++ch.taken;
+		}
+	}
+	return 0;
+}
+template <class C>
+static bool channelScenario(Rng& rng, const C& proto, int maxPairs)
+{
+	int np = rng.range(1, maxPairs), per = rng.range(1, 3);
+	Channel<C> ch;
+	vsched::hook(111, &ch.taken, 0);
+	std::vector<ChanJob<C> > jobs((size_t)np * 2);
+	std::vector<pthread_t> th((size_t)np * 2);
+	C* mine = new C(proto);
+	for (int i = 0; i < np * 2; i++) { ChanJob<C> j = { &ch, mine, per, i + 1, i < np }; jobs[i] = j; }
+	for (int i = 0; i < np * 2; i++) pthread_create(&th[i], 0, chanThread<C>, &jobs[i]);
+	for (int i = 0; i < np; i++) pthread_join(th[i], 0); // producers done: nobody reads *mine any more
+	delete mine;
+	for (int i = np; i < np * 2; i++) pthread_join(th[i], 0);
+	vsched::hook(112, &ch.taken, (int)ch.taken);
+	if ((int)ch.taken != np * per || ch.queue.length() != 0)
+	{
+		fprintf(stderr, "VREC-FAIL: %d handles taken from the queue, %d left in it; %d were put\n", (int)ch.taken, ch.queue.length(), np * per);
+		return false;
+	}
+	return true;
+}
+
+// the hand-off events (130 = put item v, 131 = got item v) in the order they happened (they are logged under the
+// channel's mutex), as one more trace line {"objs":[],"chan":[...]} validated by Trace_Counter.tla (ChanOK)
+static long dumpChannel(FILE* f)
+{
+	vsched::Sched& s = vsched::S();
+	long n = 0;
+	fprintf(f, "{\"objs\":[],\"chan\":[");
+	for (size_t i = 0; i < s.log.size(); i++)
+		if (s.log[i].kind == 130 || s.log[i].kind == 131)
+			fprintf(f, "%s{\"k\":%d,\"t\":%d,\"v\":%ld}", n++ ? "," : "", s.log[i].kind, s.log[i].tid, s.log[i].val);
+	fprintf(f, "]}\n");
+	return n + 1;
+}
+
+// the class hierarchy behind the Shared<T> / SmartObject API scenario
+struct DProbe : public Probe
+{
+	virtual ~DProbe() {}
+	virtual DProbe* clone() const { return new DProbe(*this); }
+};
+struct DProbe2 : public DProbe
+{
+	DProbe* clone() const { return new DProbe2(*this); }
+};
+struct DProbe3 : public DProbe
+{
+	DProbe* clone() const { return new DProbe3(*this); }
+};
+namespace asl {
+ASL_SMART_CLASS(DObj, Obj)
+{
+public:
+	ASL_SMART_INNER_DEF(DObj);
+	DObj_() {}
+};
+class DObj : public Obj
+{
+public:
+	ASL_SMART_DEF(DObj, Obj);
+};
+ASL_SMART_CLASS(EObj, Obj)
+{
+public:
+	ASL_SMART_INNER_DEF(EObj);
+	EObj_() {}
+};
+class EObj : public Obj
+{
+public:
+	ASL_SMART_DEF(EObj, Obj);
+};
+}
+struct ApiHandleJob
+{
+	Shared<DProbe>* sp;
+	Obj* so;
+	uint64_t seed;
+	int ops;
+};
+static void* apiHandleThread(void* p)
+{
+	ApiHandleJob& j = *(ApiHandleJob*)p;
+	Rng rng(j.seed);
+	Shared<DProbe> mine(*j.sp);
+	Obj obj(*j.so);
+	for (int i = 0; i < j.ops; i++)
+	{
+		switch (rng.below(8))
+		{
+		// (what these calls return is decided in the R direction against RefCount.tla; here their counter traffic is recorded)
+		case 0: { Shared<DProbe2> d = mine.as<DProbe2>(); Shared<DProbe> b(d); break; }
+		case 1: { Shared<DProbe3> d = mine.as<DProbe3>(); Shared<DProbe> b(d); break; }
+		case 2: { Shared<DProbe> c = mine.clone(); Shared<DProbe> c2(c); break; }
+		case 3: { Shared<DProbe> n; Shared<DProbe> k(mine); k = n; n = mine; break; }
+		case 4: { DObj d = obj.as<DObj>(); Obj b(d); g_sink += obj.is<DObj>(); break; }
+		case 5: { EObj e = obj.as<EObj>(); Obj b(e); g_sink += obj.is<EObj>(); break; }
+		case 6: { Obj c = obj.clone(); Obj& r = c; c = r; Obj c2(c); break; }
+		default: { Obj n((Obj::Ptr)0); Obj k(obj); k = n; n = obj; break; }
+		}
+	}
+	return 0;
+}
+static bool apiHandleScenario(Rng& rng, int maxThreads, int opsPer)
+{
+	int nt = rng.range(2, maxThreads);
+	Shared<DProbe>* sp = new Shared<DProbe>(Shared<DProbe2>(new DProbe2));
+	Obj* so = new Obj(DObj());
+	std::vector<ApiHandleJob> jobs((size_t)nt);
+	std::vector<pthread_t> th((size_t)nt);
+	for (int i = 0; i < nt; i++) { ApiHandleJob j = { sp, so, rng.next(), opsPer }; jobs[i] = j; }
+	for (int i = 0; i < nt; i++) pthread_create(&th[i], 0, apiHandleThread, &jobs[i]);
+	for (int i = 0; i < nt; i++) pthread_join(th[i], 0);
+	delete sp;
+	delete so;
+	return true;
+}
+
+// several shared objects (e.g. a container and one nested in it); the creator drops its handles while the workers run,
+// so any thread can be the one that drops the last handle
+template <class C>
+static bool multiHandleScenario(Rng& rng, std::vector<C*>& protos, int maxThreads, int opsPer)
+{
+	int nt = rng.range(2, maxThreads);
+	std::vector<HandleJob<C> > jobs((size_t)nt);
+	std::vector<pthread_t> th((size_t)nt);
+	for (int i = 0; i < nt; i++)
+	{
+		HandleJob<C> j = { new C(*protos[(size_t)i % protos.size()]), rng.next(), opsPer };
+		jobs[i] = j;
+	}
+	for (int i = 0; i < nt; i++) pthread_create(&th[i], 0, handleThread<C>, &jobs[i]);
+	for (size_t i = 0; i < protos.size(); i++) delete protos[i];
+	protos.clear();
+	for (int i = 0; i < nt; i++) pthread_join(th[i], 0);
+	return true;
+}
+template <class C>
+static bool oneHandleScenario(Rng& rng, C* proto, int maxThreads, int opsPer)
+{
+	std::vector<C*> v(1, proto);
+	return multiHandleScenario(rng, v, maxThreads, opsPer);
+}
+static bool varScenario(Rng& rng, int maxThreads, int opsPer)
+{
+	// outer object { "a": 1, "k": [7, [8]] , "l": <the same inner array> }: two embedded handles to `mid`, `mid` embeds `inner`
+	Var* inner = new Var(Var::ARRAY);
+	*inner << 8;
+	Var* mid = new Var(Var::ARRAY);
+	*mid << 7 << *inner;
+	Var* outer = new Var(Var::OBJ);
+	(*outer)["a"] = 1;
+	(*outer)["k"] = *mid;
+	(*outer)["l"] = *mid;
+	std::vector<Var*> v;
+	v.push_back(outer);
+	v.push_back(mid);
+	v.push_back(inner);
+	return multiHandleScenario(rng, v, maxThreads, opsPer);
+}
+
 int main(int argc, char** argv)
 {
 	Args args(argc, argv);
@@ -203,7 +571,7 @@ int main(int argc, char** argv)
 	FILE* f = fopen(args.out.c_str(), "w");
 	if (!f) { perror("out"); return 2; }
 	long events = 0;
-	static const int kinds[] = { 2, 4, 111, 112, 113 };
+	static const int kinds[] = { 2, 4, 111, 112, 113, 114, 115, 116, 117, 118, 119, 120, 121, 122, 123, 124, 125, 126, 127 };
 	int round = 0;
 	while (events < args.events)
 	{
@@ -211,7 +579,8 @@ int main(int argc, char** argv)
 		bool big = (round++ % 4) == 3; // every 4th execution: high contention, only totals are logged
 		int opsPer = big ? rng.range(1000, args.mode == 1 ? 200000 : 20000) : args.mode == 3 ? rng.range(50, 2000) : rng.range(3, 14);
 		int maxThreads = big ? 16 : args.mode == 3 ? 8 : 3;
-		int kind = big ? 0 : rng.below(6);
+		int kind = big ? 0 : rng.below(21);
+		if (getenv("C12_DEBUG")) fprintf(stderr, "exec %d kind %d\n", round - 1, kind);
 		bool ok = true;
 		{
 			Array<Probe> pa; pa << Probe();
@@ -233,11 +602,24 @@ int main(int argc, char** argv)
 				else if (kind == 2) ok = handleScenario(rng, pm, maxThreads, opsPer, "Map");
 				else if (kind == 3) ok = handleScenario(rng, ph, maxThreads, opsPer, "HashMap");
 				else if (kind == 4) ok = handleScenario(rng, ps, maxThreads, opsPer, "Shared");
-				else ok = handleScenario(rng, po, maxThreads, opsPer, "SmartObject class");
+				else if (kind == 5) ok = handleScenario(rng, po, maxThreads, opsPer, "SmartObject class");
+				else if (kind == 6 || kind == 7) ok = apiCounterScenario(rng, maxThreads, args.mode == 3 ? opsPer : rng.range(2, 7), args.mode != 3);
+				else if (kind == 8) { Dic<Probe>* d = new Dic<Probe>; (*d)["a"] = Probe(); ok = oneHandleScenario(rng, d, maxThreads, opsPer); }
+				else if (kind == 9) { HashDic<Probe>* d = new HashDic<Probe>; (*d)["a"] = Probe(); ok = oneHandleScenario(rng, d, maxThreads, opsPer); }
+				else if (kind == 10) { Set<int>* d = new Set<int>; *d << 3 << 4; ok = oneHandleScenario(rng, d, maxThreads, opsPer); }
+				else if (kind == 11) { Stack<Probe>* d = new Stack<Probe>; d->push(Probe()); ok = oneHandleScenario(rng, d, maxThreads, opsPer); }
+				else if (kind == 12) { Queue<Probe>* d = new Queue<Probe>; d->put(Probe()); ok = oneHandleScenario(rng, d, maxThreads, opsPer); }
+				else if (kind == 13) { Array2<Probe>* d = new Array2<Probe>(1, 2); ok = oneHandleScenario(rng, d, maxThreads, opsPer); }
+				else if (kind == 14 || kind == 15) ok = varScenario(rng, maxThreads, opsPer);
+				else if (kind == 16) ok = rng.chance(50) ? threadCaptureScenario(rng, pa, maxThreads) : rng.chance(50) ? threadCaptureScenario(rng, ps, maxThreads) : threadCaptureScenario(rng, po, maxThreads);
+				else if (kind == 17) ok = rng.chance(50) ? channelScenario(rng, pa, 2) : rng.chance(50) ? channelScenario(rng, ps, 2) : channelScenario(rng, Var(Array<Var>(2)), 2);
+				else if (kind == 20) ok = rng.chance(50) ? functionScenario(rng, pa, maxThreads) : rng.chance(50) ? functionScenario(rng, ps, maxThreads) : functionScenario(rng, po, maxThreads);
+				else ok = apiHandleScenario(rng, maxThreads, args.mode == 3 ? opsPer : rng.range(2, 6));
 				if (args.mode != 3)
 				{
 					vsched::end();
-					events += vsched::dumpLogByObject(f, kinds, 5) + 1;
+					events += vsched::dumpLogByObject(f, kinds, (int)(sizeof kinds / sizeof kinds[0])) + 1;
+					if (kind == 17) events += dumpChannel(f);
 				}
 				else
 					events += 50;
